@@ -73,8 +73,9 @@ func (i *Identifier) SQL() string {
 }
 
 // safeIdentifier returns the identifier unchanged if it contains only safe
-// characters (letters, digits, underscores, dots, *). Otherwise it double-
-// quotes it with proper escaping to prevent SQL identifier injection.
+// characters (letters, digits after the first character, underscores, dots).
+// Otherwise it double-quotes it with proper escaping to prevent SQL identifier
+// injection.
 func safeIdentifier(name string) string {
 	if name == "" {
 		return `""`
@@ -82,8 +83,17 @@ func safeIdentifier(name string) string {
 	if name == "*" {
 		return name
 	}
+	digitsOnly := true
 	for _, r := range name {
-		if r != '_' && r != '*' && r != '.' && !unicode.IsLetter(r) && !unicode.IsDigit(r) {
+		if !unicode.IsDigit(r) {
+			digitsOnly = false
+			break
+		}
+	}
+	for i, r := range name {
+		// a name such as 1abc would read back as a number followed by a word,
+		// an inner * as a multiplication
+		if r != '_' && r != '.' && !unicode.IsLetter(r) && (!unicode.IsDigit(r) || (i == 0 && !digitsOnly)) {
 			return `"` + strings.ReplaceAll(name, `"`, `""`) + `"`
 		}
 	}
